@@ -47,6 +47,8 @@ def main():
     if pid in ("C18", "C13") and "-d=checkptr" in notes:
         flags = "-gcflags=all=-d=checkptr"
     demo_env = "GOARCH=386 " if "GOARCH=386" in notes else ""
+    if demo_env:
+        flags = ""  # the race detector does not exist on 386
 
     def run_demo():
         results = []
